@@ -54,6 +54,7 @@ var h1specs = []h1spec{
 	{Name: "fresh-upload-expect-continue", Upload: true, Expect: true},
 	{Name: "tls-handshake-never-answered", TLS: true, HSTimeout: true},
 	{Name: "fresh-upload-producer-stalls", Upload: true, Stall: true},
+	{Name: "fresh-upload-expect-continue-producer-stalls", Upload: true, Expect: true, Stall: true},
 }
 
 var h2specs = []h2spec{
